@@ -320,4 +320,24 @@ structure Valid (d : DocD) : Prop where
   /-- a trigger starts a flow the document knows -/
   triggerFlows : ∀ t ∈ d.triggers, t.flow.name ∈ (docFlowRefsPre d).map (·.1)
 
+/-! ### executable forms of the hypotheses (served by the driver: `doc.hyps`) -/
+
+instance (refs : List (Str × Str)) : Decidable (Functional refs) := by
+  unfold Functional; exact inferInstance
+
+def validB (d : DocD) : Bool :=
+  decide (∀ f ∈ d.flows, validFlow f = true) && decide (∀ c ∈ d.campaigns, validCampaign c = true)
+    && decide (∀ t ∈ d.triggers, validTrigger t = true) && keepsOr jEmptyArr d.fields && truthy d.site
+    && decide ((d.groups.map (·.name)).Nodup) && decide (∀ g ∈ d.groups, g.uuid ≠ [])
+    && decide (∀ r ∈ docGroupRefs d, r ∈ d.groups.map gref) && decide (Functional (docFlowRefs d))
+    && decide (∀ t ∈ d.triggers, t.flow.name ∈ (docFlowRefsPre d).map (·.1))
+
+theorem validB_iff (d : DocD) : validB d = true ↔ Valid d := by
+  simp only [validB, Bool.and_eq_true, decide_eq_true_eq]
+  constructor
+  · rintro ⟨⟨⟨⟨⟨⟨⟨⟨⟨h1, h2⟩, h3⟩, h4⟩, h5⟩, h6⟩, h7⟩, h8⟩, h9⟩, h10⟩
+    exact ⟨h1, h2, h3, h4, h5, h6, h7, h8, h9, h10⟩
+  · intro h
+    exact ⟨⟨⟨⟨⟨⟨⟨⟨⟨h.flows, h.campaigns⟩, h.triggers⟩, h.fields⟩, h.site⟩, h.groupNames⟩, h.groupUuids⟩, h.groupsListed⟩, h.flowRefs⟩, h.triggerFlows⟩
+
 end Rpft.Document
